@@ -11,6 +11,7 @@ import (
 	"verifharness/internal/fixture"
 	"verifharness/internal/refclient"
 	rc "verifharness/internal/refcodec"
+	"verifharness/internal/xfer"
 )
 
 type env struct {
@@ -27,6 +28,10 @@ type scenario struct {
 	noReply bool
 	// special handling
 	nameAdoption bool
+	// semantic: absolute oracle evaluated on every execution (returns "" or a violation text)
+	semantic func(bits []byte, o outcome, srv *fixture.Server) string
+	// transfer: when the request hands out a reference number, perform the upload on the transfer connection
+	transfer bool
 }
 
 func fn(s string) rc.Field          { return rc.FS(201, s) }
@@ -121,6 +126,33 @@ var scenarios = []scenario{
 	{name: "use-any-name", typ: 304, gov: []int{26}, noReply: true, nameAdoption: true, build: func(e env) []rc.Field {
 		return []rc.Field{rc.FS(102, "Chosen Name"), rc.F(104, rc.U16(7))}
 	}},
+	// path encodings whose announced item count is smaller than the items present: whatever the parser makes of
+	// them, protected data stays protected and uploads stay where the account may upload
+	{name: "list-path-count-mismatch", typ: 200, build: func(e env) []rc.Field {
+		p := rc.PathS("Docs", "Drop Box")
+		p[1] = 1
+		return []rc.Field{rc.F(202, p)}
+	}, semantic: func(bits []byte, o outcome, srv *fixture.Server) string {
+		if !rc.BitSet(bits, 30) && strings.Contains(o.replyHex, fmt.Sprintf("%x", "hidden-in-dropbox")) {
+			return "the reply lists the content of a drop box to an account without view-drop-boxes"
+		}
+		return ""
+	}},
+	{name: "upload-path-count-mismatch", typ: 203, transfer: true, build: func(e env) []rc.Field {
+		p := rc.PathS("Uploads", "..", "Docs")
+		p[1] = 1
+		return []rc.Field{fn("sneaked.bin"), rc.F(202, p), rc.F(108, rc.U32(100))}
+	}, semantic: func(bits []byte, o outcome, srv *fixture.Server) string {
+		if rc.BitSet(bits, 25) {
+			return ""
+		}
+		for _, d := range o.diff {
+			if strings.HasPrefix(d, "added root/") && !strings.HasPrefix(d, "added root/Uploads/") && !strings.HasPrefix(d, "added root/Drop Box/") {
+				return "an account without upload-anywhere caused " + d
+			}
+		}
+		return ""
+	}},
 	// controls: no governing privilege, must be served whatever the bitmap
 	{name: "ctl-keepalive", typ: 500, build: func(e env) []rc.Field { return nil }},
 	{name: "ctl-userlist", typ: 300, build: func(e env) []rc.Field { return nil }},
@@ -135,7 +167,7 @@ func init() {
 	n := len(scenarios) * chunks
 	core.Register(&core.Simple{
 		Id: "C05", Lvl: "exploration", Quick: n, Thorough: n * 12, PerBatch: 72, Width: 24, Timeout: 1200,
-		RuleText: "one case = one request scenario (request type x target kind, 57 scenarios incl. controls) executed on identical fresh servers under a chunk of access bitmaps: all-ones (baseline), all-ones minus each governing bit, only the governing bits, the 64 single-bit bitmaps (exhaustive across the 8 chunks of a scenario) and seeded random bitmaps; the oracle compares reply class, emissions to other clients and file/account/news/board snapshots with the baseline (granted) or demands an error reply and no change (denied). distinct = (scenario, bitmap class, granted/denied); non-trivial = every execution",
+		RuleText: "one case = one request scenario (request type x target kind, 59 scenarios incl. controls and two hostile path encodings judged by absolute oracles) executed on identical fresh servers under a chunk of access bitmaps: all-ones (baseline), all-ones minus each governing bit, only the governing bits, the 64 single-bit bitmaps (exhaustive across the 8 chunks of a scenario) and seeded random bitmaps; the privileges are either held from the start, or set by an administrator between the actor's login and its agreed, or set on the live session (the privileges current when the request arrives are what counts); the oracle compares reply class, emissions to other clients and file/account/news/board snapshots with the baseline (granted) or demands an error reply and no change (denied). distinct = (scenario, bitmap class, granted/denied); non-trivial = every execution",
 		Case: runCase,
 	})
 }
@@ -149,6 +181,7 @@ type outcome struct {
 	tables    string
 	actorName string
 	raw       string
+	replyHex  string
 }
 
 func (o outcome) sig() string {
@@ -161,6 +194,7 @@ func files(root string) {
 	os.MkdirAll(root+"/Uploads", 0755)
 	os.MkdirAll(root+"/Docs", 0755)
 	fixture.WriteFile(root+"/Drop Box/secret.txt", "secret")
+	fixture.WriteFile(root+"/Docs/Drop Box/hidden-in-dropbox.txt", "secret")
 }
 
 const newsYAML = `Categories:
@@ -190,11 +224,19 @@ const newsYAML = `Categories:
         SubCats: {}
 `
 
-func execute(sc scenario, bits []byte) (outcome, error) {
+// execute runs one request. mode "plain": the actor's account holds bits from the start. mode "revoke-before-agreed":
+// the account starts with every privilege, the actor logs in (1.5 flow), an administrator then sets the account's
+// privileges to bits, and only then the actor sends agreed. mode "revoke-live": the same change is made to the fully
+// logged-in session. In all modes the privileges the account holds when the request arrives are bits.
+func execute(sc scenario, bits []byte, mode string) (outcome, error) {
 	var o outcome
+	initial := bits
+	if mode != "plain" {
+		initial = rc.AllBits()
+	}
 	srv, err := fixture.New(fixture.Options{
 		Accounts: []fixture.Account{
-			{Login: "actor", Name: "Actor Account", Access: bits},
+			{Login: "actor", Name: "Actor Account", Access: initial},
 			{Login: "obs", Name: "Obs", Access: rc.AllBits()},
 			{Login: "victim", Name: "Victim", Access: fixture.GuestBits()},
 			{Login: "spare", Name: "Spare", Password: "sparepw", Access: rc.Bitmap(2, 9)},
@@ -214,9 +256,39 @@ func execute(sc scenario, bits []byte) (outcome, error) {
 	if err != nil {
 		return o, err
 	}
-	actor, err := refclient.LoginAs(srv, "10.1.0.3:1", "actor", "", "Actor")
-	if err != nil {
-		return o, err
+	setBits := func() error {
+		rep, ok := obs.Call(353, rc.F(105, rc.Obfuscate([]byte("actor"))), rc.FS(102, "Actor Account"), rc.F(110, bits), rc.F(106, []byte{0}))
+		if !ok || rep.Err != 0 {
+			return fmt.Errorf("administrator's set-user failed: %v", rep)
+		}
+		return nil
+	}
+	var actor *refclient.Client
+	switch mode {
+	case "revoke-before-agreed":
+		actor = refclient.Connect(srv, "10.1.0.3:1")
+		if err := actor.Handshake(); err != nil {
+			return o, err
+		}
+		if rep, ok := actor.Login(refclient.LoginOpts{Login: "actor", Version: 190}); !ok || rep.Err != 0 {
+			return o, fmt.Errorf("actor login: %v", rep)
+		}
+		if err := setBits(); err != nil {
+			return o, err
+		}
+		if _, ok := actor.Agreed("Actor", 1, 0, ""); !ok {
+			return o, fmt.Errorf("no reply to agreed")
+		}
+	default:
+		actor, err = refclient.LoginAs(srv, "10.1.0.3:1", "actor", "", "Actor")
+		if err != nil {
+			return o, err
+		}
+		if mode == "revoke-live" {
+			if err := setBits(); err != nil {
+				return o, err
+			}
+		}
 	}
 	// learn ids from the user list as a client would
 	ul, ok := obs.Call(300)
@@ -275,6 +347,12 @@ func execute(sc scenario, bits []byte) (outcome, error) {
 			ids = dedupe(ids)
 			o.replyIDs = strings.Join(ids, ",")
 			o.raw = t.String()
+			o.replyHex = fmt.Sprintf("%x", t.Encode())
+			if ref, ok := t.Get(107); ok && sc.transfer && t.Err == 0 {
+				body := xfer.UploadStream([]byte("n"), nil, []byte("payload"), nil)
+				tr := xfer.Start(srv, "10.1.0.3:2", ref, len(body), [][]byte{body})
+				xfer.Finish(tr)
+			}
 		} else {
 			o.emissions = append(o.emissions, fmt.Sprintf("actor<-%d", t.Type))
 		}
@@ -360,7 +438,7 @@ func runCase(c *core.Case) {
 		vs = append(vs, variant{"random", bits})
 	}
 
-	base, err := execute(sc, rc.AllBits())
+	base, err := execute(sc, rc.AllBits(), "plain")
 	if err != nil {
 		c.Unsure("baseline: %v", err)
 		return
@@ -371,12 +449,24 @@ func runCase(c *core.Case) {
 	}
 	granted, denied := 0, 0
 	for _, v := range vs {
-		o, err := execute(sc, v.bits)
+		mode := core.Pick(c.R, []string{"plain", "plain", "revoke-before-agreed", "revoke-live"})
+		o, err := execute(sc, v.bits, mode)
 		if err != nil {
-			c.Unsure("%s %x: %v", sc.name, v.bits, err)
+			c.Unsure("%s %x (%s): %v", sc.name, v.bits, mode, err)
 			return
 		}
+		v.class += "/" + mode
 		c.Count("executions", 1)
+		c.Count("executions_"+mode, 1)
+		if sc.semantic != nil {
+			if msg := sc.semantic(v.bits, o, nil); msg != "" {
+				c.Fail("C05/"+sc.name+"/protected-effect", "%s with bitmap %x (%s): %s; outcome %s", sc.name, v.bits, v.class, msg, o.sig())
+			}
+			if msg := sc.semantic(rc.AllBits(), base, nil); msg != "" {
+				c.Fail("C05/"+sc.name+"/protected-effect", "%s: %s", sc.name, msg)
+			}
+			continue
+		}
 		has := true
 		for _, g := range sc.gov {
 			if !rc.BitSet(v.bits, g) {
@@ -387,7 +477,12 @@ func runCase(c *core.Case) {
 			// no error either way; the name is adopted only with the privilege
 			want := "Chosen Name"
 			if !has {
+				// not adopted: the user keeps the name it had (the account's name, or — when the privilege was
+				// revoked from the live session — the name adopted at login)
 				want = "Actor Account"
+				if mode == "revoke-live" {
+					want = "Actor"
+				}
 			}
 			if o.replied && o.errCode != 0 {
 				c.Fail("C05/"+sc.name+"/error", "set-client-info answered with an error for bitmap %x", v.bits)
